@@ -294,3 +294,231 @@ Proof. exact newton_crit_gives_distance. Qed.
 Example quadratic_distance_instance :
   (norm NumR (dgrad [2; 3] [2; 3] [1; 1]) < 1 -> norm NumR (vsub NumR [1; 1] (dmin [2; 3] [2; 3])) < 1 / 2)%R.
 Proof. exact quadratic_distance_instance_l. Qed.
+
+(* ===================================================================================
+   Round 3: newton_min — newton.RunMin (nm_phi = true: every step goes through
+   lineSearch.Run on phi(alpha) = f_(x1 - alpha t1) with the closure constraints_line) and
+   newton_min's own back-tracking loop (nm_phi = false, getPhi == nil).  For EVERY carrier,
+   EVERY objective oracle [MF] (value, gradient, Hessian through AD), EVERY line-search
+   oracle [MPHI], direction oracle [ND], hook [MHK], constraint callback [NCS], start
+   point, parameter record (both variants, all Hessian-modification modes) and fuel. *)
+From ADV Require Import C07.ModelNewtonMin C07.SpecNewtonMin C07.ProofsNewtonMin C07.ExamplesNewtonMin.
+
+Section PropsNewtonMin.
+Context {A : Type} (NM : Num A).
+Variable K : consts (A := A).
+Variable MF : nat -> list A -> nm_answer (A := A).
+Variable MPHI : nat -> list A -> list A -> A -> phi_answer (A := A).
+Variable ND : nat -> Z -> list A -> list (list A) -> dir_ans (A := A).
+Variable MHK : nat -> nm_hookargs (A := A) -> bool.
+Variable NCS : nat -> list A -> bool.
+
+(* (1) Converged x: the LAST evaluation of f (not of phi) was at x, succeeded, |g| < epsilon *)
+Theorem newton_min_stop_condition : forall (P : nm_params) fuel x0 x tr,
+  newton_min NM K MF MPHI ND MHK NCS P fuel x0 = (NmConv x, tr) ->
+  nmf MF MPHI ND MHK NCS tr /\ nm_stop_ok NM (nm_eps P) tr x.
+Proof. exact (newton_min_stop_l NM K MF MPHI ND MHK NCS). Qed.
+Theorem newton_min_stop_condition_reevaluated : forall (f : list A -> nm_answer (A := A)) eps tr x,
+  (forall k y, MF k y = f y) -> nmf MF MPHI ND MHK NCS tr -> nm_stop_ok NM eps tr x ->
+  m_err (f x) = false /\ ltb NM (norm NM (m_g (f x))) eps = true.
+Proof. exact (nm_stop_pure NM MF MPHI ND MHK NCS). Qed.
+
+(* every nil-error return (stop test, hook stop, cap) carries the point of the last
+   successful evaluation of f: x1 - alpha t1 is never returned unevaluated *)
+Theorem newton_min_returns_evaluated_point : forall (P : nm_params) fuel x0,
+  nm_point_evaluated (snd (newton_min NM K MF MPHI ND MHK NCS P fuel x0)) (fst (newton_min NM K MF MPHI ND MHK NCS P fuel x0)).
+Proof. exact (newton_min_evaluated_l NM K MF MPHI ND MHK NCS). Qed.
+
+(* the exits of the step search are ERROR returns: the exhausted back-tracking loop
+   (getPhi == nil) and an error of lineSearch.Run (RunMin) *)
+Theorem newton_min_backtrack_exit_is_error : forall (P : nm_params) fuel x1 t1 tr tr',
+  nm_phi P = false -> nm_backtrack NM NCS P fuel x1 t1 tr = MBTFail tr' ->
+  nm_advance NM K MF MPHI NCS P fuel x1 t1 tr = MAdvStop (NmErr MEBacktrack x1) tr' /\
+  nm_is_err (NmErr MEBacktrack x1) = true /\ nw_step_vanished NM (nm_c P) x1 t1.
+Proof. exact (nm_backtrack_exit_is_error_l NM K MF MPHI ND MHK NCS). Qed.
+Theorem newton_min_linesearch_error_is_error : forall (P : nm_params) fuel x1 t1 tr al t1' tr',
+  nm_phi P = true -> nm_line_search NM K MPHI NCS P x1 fuel t1 tr = MLS true al t1' tr' ->
+  nm_advance NM K MF MPHI NCS P fuel x1 t1 tr = MAdvStop (NmErr MELineSearch x1) tr' /\
+  nm_is_err (NmErr MELineSearch x1) = true.
+Proof. exact (nm_linesearch_error_is_error_l NM K MF MPHI NCS). Qed.
+
+(* (2) hook arguments: (g, H, y) are f's answer for the x passed with them *)
+Theorem newton_min_hook_arguments : forall (P : nm_params) fuel x0,
+  nm_hooks_ok (snd (newton_min NM K MF MPHI ND MHK NCS P fuel x0)).
+Proof. exact (newton_min_hooks_l NM K MF MPHI ND MHK NCS). Qed.
+Theorem newton_min_hook_arguments_reevaluated : forall (f : list A -> nm_answer (A := A)) tr h b,
+  (forall k y, MF k y = f y) -> nmf MF MPHI ND MHK NCS tr -> nm_hooks_ok tr -> In (MvHook h b) tr ->
+  mh_g h = m_g (f (mh_x h)) /\ mh_H h = m_H (f (mh_x h)) /\ mh_y h = m_y (f (mh_x h)).
+Proof. exact (nm_hooks_pure MF MPHI ND MHK NCS). Qed.
+
+(* (3) constraints.  Proved: with the back-tracking loop (nm_phi = false) no nil-error
+   outcome carries a point the callback did not accept; in both variants a rejected start
+   point is an error return.  MISSING for RunMin (nm_phi = true), and false there: see
+   newton_min_linesearch_constraints_refuted (known finding F-NEWTON-MIN-CONS-LINE). *)
+Theorem newton_min_constraints_partial : forall (P : nm_params) fuel x0,
+  nm_point_accepted (nm_cons P && negb (nm_phi P)) (snd (newton_min NM K MF MPHI ND MHK NCS P fuel x0))
+    (fst (newton_min NM K MF MPHI ND MHK NCS P fuel x0)).
+Proof. exact (newton_min_cons_l NM K MF MPHI ND MHK NCS). Qed.
+Theorem newton_min_start_point_rejected : forall (P : nm_params) fuel x0,
+  nm_cons P = true -> NCS 0 x0 = false ->
+  newton_min NM K MF MPHI ND MHK NCS P fuel x0 = (NmErr MEInit x0, [MvCons x0 false]).
+Proof. exact (newton_min_start_rejected_l NM K MF MPHI ND MHK NCS). Qed.
+Theorem newton_min_constraints_reevaluated : forall (c : list A -> bool) tr x,
+  (forall k y, NCS k y = c y) -> nmf MF MPHI ND MHK NCS tr -> nm_accepted true tr x -> c x = true.
+Proof. exact (nm_accepted_pure MF MPHI ND MHK NCS). Qed.
+
+(* (5) caps: at most 1 + MaxIterations evaluations of f, MaxIterations hook calls and calls
+   of getDirection, and (2 + MaxEval) line-search evaluations per iteration (22 for RunMin) *)
+Theorem newton_min_iteration_cap : forall (P : nm_params) fuel x0,
+  (nm_n_evals (snd (newton_min NM K MF MPHI ND MHK NCS P fuel x0)) <= 1 + Z.to_nat (nm_maxit P))%nat /\
+  (nm_n_hooks (snd (newton_min NM K MF MPHI ND MHK NCS P fuel x0)) <= Z.to_nat (nm_maxit P))%nat /\
+  (nm_n_dirs (snd (newton_min NM K MF MPHI ND MHK NCS P fuel x0)) <= Z.to_nat (nm_maxit P))%nat /\
+  (nm_n_phis (snd (newton_min NM K MF MPHI ND MHK NCS P fuel x0)) <= (2 + Z.to_nat (nm_maxeval P)) * Z.to_nat (nm_maxit P))%nat.
+Proof. exact (newton_min_caps_l NM K MF MPHI ND MHK NCS). Qed.
+End PropsNewtonMin.
+
+(* refuted on the faithful model (known finding F-NEWTON-MIN-CONS-LINE): RunMin with the
+   constraint x <= 3 on f(x) = -x + x^2/2 - 0.4 x^3 + 0.06328125 x^4 from 0 returns 4 as
+   converged; only 0, 1 and 2 were submitted to the callback *)
+Theorem newton_min_linesearch_constraints_refuted :
+  exists tr, newton_min NumF KF (fun _ => fq4) (fun _ => phiq4) solve1m noMHK le3 (Pmin true true) 200 [0%float]
+               = (NmConv [4%float], tr) /\
+     le3 0%nat [4%float] = false /\ submitted_ok tr [4%float] = false /\
+     submitted_ok tr [2%float] = true /\ nm_n_phis tr = 3%nat.
+Proof. exact newton_min_linesearch_constraints_refuted_l. Qed.
+Example newton_min_backtrack_exit_reached :
+  exists x tr, newton_min NumF KF (fun _ => fsh) (fun _ => nophi) solve1m noMHK le125 (Pmin true false) 3000 [1%float]
+               = (NmErr MEBacktrack x, tr) /\ le125 0%nat x = true /\ submitted_ok tr x = true /\
+     PrimFloat.ltb (norm NumF (m_g (fsh x))) eps1 = false.
+Proof. exact newton_min_backtrack_exit_reached_l. Qed.
+Example newton_min_converges :
+  exists tr, newton_min NumF KF (fun _ => fq4) (fun _ => phiq4) solve1m noMHK noNCS (Pmin false true) 200 [0%float]
+               = (NmConv [4%float], tr) /\
+     PrimFloat.ltb (norm NumF (m_g (fq4 [4%float]))) eps1 = true.
+Proof. exact newton_min_converges_l. Qed.
+
+(* ===================================================================================
+   Round 3: saga — saga1Dense / saga1Sparse / saga2Dense / saga2Sparse (one template),
+   with the gradient table, the proximal operators, gamma and the stopping rule
+   EvalStopping.  For EVERY carrier, EVERY per-sample gradient oracle [SF], EVERY
+   sequence of random draws [RJ], hook [SHK], start point, parameter record and fuel.
+   The result carries, besides the trace of external calls, the log [el] of the
+   evaluations of the stop test (newest first). *)
+From ADV Require Import C07.ModelSaga C07.SpecSaga C07.ProofsSaga C07.ExamplesSaga.
+
+Section PropsSaga.
+Context {A : Type} (NM : Num A).
+Variable SF : nat -> nat -> list A -> sg_answer (A := A).
+Variable RJ : nat -> nat.
+Variable SHK : nat -> sg_hookargs (A := A) -> bool.
+
+(* (1) on a converged return the CODED stop test (EvalStopping with tolerance
+   epsilon*gamma) was evaluated on exactly (previous epoch's iterate, returned iterate) and
+   fired; all earlier tests did not fire *)
+Theorem saga_stop_condition : forall (P : sg_params) x0 fuel x tr el,
+  saga NM SF RJ SHK P fuel x0 = (SgConv x, tr, el) ->
+  exists xs d rest, el = (xs, x, d, true) :: rest /\ xs = last_it x0 rest /\ all_go rest /\
+    sg_eval_stop NM xs x (sg_tol NM P) = SStop d.
+Proof. exact (saga_stop_l NM SF RJ SHK). Qed.
+(* every logged test is the coded test on the logged pair, and each epoch compares with the
+   iterate the previous epoch ended with (the start point for the first) *)
+Theorem saga_stop_tests_chained : forall (P : sg_params) x0 fuel,
+  Forall (entry_ok NM P) (snd (saga NM SF RJ SHK P fuel x0)) /\ chained x0 (snd (saga NM SF RJ SHK P fuel x0)).
+Proof. exact (saga_tests_l NM SF RJ SHK). Qed.
+(* hook stop / epoch cap: the returned point is the iterate of the last logged test *)
+Theorem saga_other_returns : forall (P : sg_params) x0 fuel x,
+  fst (fst (saga NM SF RJ SHK P fuel x0)) = SgHook x \/ fst (fst (saga NM SF RJ SHK P fuel x0)) = SgCap x ->
+  x = last_it x0 (snd (saga NM SF RJ SHK P fuel x0)) /\ all_go (snd (saga NM SF RJ SHK P fuel x0)).
+Proof. exact (saga_other_returns_l NM SF RJ SHK). Qed.
+(* the coded test equals the test over ALL coordinates when no coordinate is zero in both
+   iterates; otherwise it does not: saga_stop_zero_prefix_refuted *)
+Theorem saga_stop_test_full_when_no_common_zero : forall (xs x1 : list A) eps,
+  Forall (fun p => eqb NM (fst p) (zero NM) && eqb NM (snd p) (zero NM) = false) (combine xs x1) ->
+  sg_eval_stop NM xs x1 eps = sg_eval_stop_full NM xs x1 eps.
+Proof. exact (sg_eval_stop_full_agree NM). Qed.
+
+(* (2) hook arguments: (x1, delta) are those of a logged non-stopping test, lambda is the
+   regulariser's constant, the epoch number is in [0, MaxIterations) *)
+Theorem saga_hook_arguments : forall (P : sg_params) x0 fuel,
+  sg_hooks_ok NM P (snd (fst (saga NM SF RJ SHK P fuel x0))) (snd (saga NM SF RJ SHK P fuel x0)).
+Proof. exact (saga_hooks_l NM SF RJ SHK). Qed.
+(* F-SAGA-HOOK-NIL: with a hook and no regulariser the hook is NEVER called and no hook
+   stop is ever returned (the code panics on the nil proximal operator instead) *)
+Theorem saga_hook_without_regulariser_never_called : forall (P : sg_params) x0 fuel,
+  sg_hook P = true -> sg_lambda NM P = None ->
+  sg_n_hooks (snd (fst (saga NM SF RJ SHK P fuel x0))) = 0%nat /\
+  forall x, fst (fst (saga NM SF RJ SHK P fuel x0)) <> SgHook x.
+Proof. exact (saga_hook_nil_l NM SF RJ SHK). Qed.
+
+(* (5) caps: at most MaxIterations epochs (stop tests), n + n*MaxIterations calls of f and
+   MaxIterations hook calls, for every oracle *)
+Theorem saga_epoch_cap : forall (P : sg_params) x0 fuel,
+  (length (snd (saga NM SF RJ SHK P fuel x0)) <= Z.to_nat (sg_maxit P))%nat /\
+  (sg_n_evals (snd (fst (saga NM SF RJ SHK P fuel x0))) <= sg_n P + sg_n P * Z.to_nat (sg_maxit P))%nat /\
+  (sg_n_hooks (snd (fst (saga NM SF RJ SHK P fuel x0))) <= Z.to_nat (sg_maxit P))%nat.
+Proof. exact (saga_caps_l NM SF RJ SHK). Qed.
+End PropsSaga.
+
+(* refuted on the faithful model (known finding F-SAGA-STOP-ZERO-PREFIX) *)
+Theorem saga_stop_zero_prefix_refuted :
+  exists tr, saga NumF sgq noRJ noSHK (Psg false) 100 [0%float; 0%float]
+               = (SgConv [0%float; 0.5%float], tr, [([0%float; 0%float], [0%float; 0.5%float], 0%float, true)]) /\
+     sg_eval_stop_full NumF [0%float; 0%float] [0%float; 0.5%float] (sg_tol NumF (Psg false)) = SGo 1%float /\
+     sg_n_evals tr = 2%nat.
+Proof. exact saga_stop_zero_prefix_refuted_l. Qed.
+Example saga_converges :
+  exists x tr xs d rest, saga NumF sgq noRJ noSHK (Psg false) 100 [2%float; 3%float] = (SgConv x, tr, (xs, x, d, true) :: rest) /\
+     sg_eval_stop_full NumF xs x (sg_tol NumF (Psg false)) = SStop d /\ length rest = 4%nat.
+Proof. exact saga_converges_l. Qed.
+Example saga_hook_without_regulariser_panics :
+  exists tr el, saga NumF sgq noRJ noSHK (Psg true) 100 [2%float; 3%float] = (SgPanic, tr, el) /\
+     sg_n_hooks tr = 0%nat /\ length el = 1%nat.
+Proof. exact saga_hook_without_regulariser_panics_l. Qed.
+
+(* ===================================================================================
+   Round 3: blahut / blahutNaive (Blahut-Arimoto).  The code has NO stop test of its own:
+   the outcome type of the machine has only "hook stop" and "step cap".  For EVERY step
+   oracle [BSTEP] (the iteration body: q, r, J = log2 sum r, next p), hook [BHK], start
+   distribution, parameters and fuel.  The capacity-optimality (KKT) residual is not
+   tested by the code, so nothing about it is claimed. *)
+From ADV Require Import C07.ModelBlahut C07.ProofsBlahut.
+
+Section PropsBlahut.
+Context {A : Type}.
+Variable BSTEP : nat -> list A -> A * list A.
+Variable BHK : nat -> list A -> A -> bool.
+
+(* the only ways out: a hook stop (the hook call is the last event; the returned p is the
+   one passed to it) or ALL steps done (exactly Z.to_nat steps of them) *)
+Theorem blahut_returns_at_cap_or_hook : forall (P : bl_params) fuel p_init,
+  match fst (blahut BSTEP BHK P fuel p_init) with
+  | BlHook p => bl_hook P = true /\ p = bl_cur p_init (snd (blahut BSTEP BHK P fuel p_init)) /\
+                exists J tr', snd (blahut BSTEP BHK P fuel p_init) = BvHook p J true :: tr'
+  | BlCap p => p = bl_cur p_init (snd (blahut BSTEP BHK P fuel p_init)) /\
+               bl_n_steps (snd (blahut BSTEP BHK P fuel p_init)) = Z.to_nat (bl_steps P)
+  | BlFuel => True
+  end.
+Proof. exact (blahut_return_l BSTEP BHK). Qed.
+Theorem blahut_step_cap : forall (P : bl_params) fuel p_init,
+  (bl_n_steps (snd (blahut BSTEP BHK P fuel p_init)) <= Z.to_nat (bl_steps P))%nat /\
+  (bl_n_hooks (snd (blahut BSTEP BHK P fuel p_init)) <= Z.to_nat (bl_steps P))%nat.
+Proof. exact (blahut_caps_l BSTEP BHK). Qed.
+(* hook bookkeeping, the lag made explicit: the hook receives (p', J) where J and p' were
+   computed by the step that STARTED FROM some p — J belongs to p, not to p' *)
+Theorem blahut_hook_arguments_lagged : forall (P : bl_params) fuel p_init,
+  bl_hook_lagged (snd (blahut BSTEP BHK P fuel p_init)).
+Proof. exact (blahut_hooks_l BSTEP BHK). Qed.
+Theorem blahut_hook_arguments_lagged_reevaluated : forall (Jf : list A -> A) (nx : list A -> list A) tr p' J b,
+  (forall k p, BSTEP k p = (Jf p, nx p)) -> blf BSTEP BHK tr -> bl_hook_lagged tr -> In (BvHook p' J b) tr ->
+  exists p, p' = nx p /\ J = Jf p.
+Proof. exact (blahut_hooks_pure_l BSTEP BHK). Qed.
+End PropsBlahut.
+
+(* "the value passed to the hook is the value at the point passed with it" is refuted on the
+   model (known finding F-BLAHUT-HOOK-LAG): hook ([0.5], 1) although J([0.5]) = 0.5 *)
+Theorem blahut_hook_value_at_point_refuted :
+  snd (blahut bl_half (fun _ _ _ => false) (mkBl 2 true) 10 [1%float])
+    = [BvHook [0.25%float] 0.5%float false; BvStep [0.5%float] 0.5%float [0.25%float];
+       BvHook [0.5%float] 1%float false; BvStep [1%float] 1%float [0.5%float]] /\
+  PrimFloat.eqb (fst (bl_half 0 [0.5%float])) 1%float = false.
+Proof. exact blahut_hook_value_lag_refuted_l. Qed.
